@@ -28,11 +28,43 @@ class Block:
             return ("f", n["r"])
         return None
 
+    def decide(self, c):
+        """truth of a condition under `choose`: conjunctions, disjunctions and negations of decided conditions are decided"""
+        c = sc(c)
+        if c is None:
+            return None
+        if c.get("k") == "ParenExpr":
+            return self.decide(c["c"][0])
+        v = self.choose(c)
+        if v is not None:
+            return v
+        if c.get("k") == "UnaryOperator" and c.get("op") == "!":
+            v = self.decide(c["c"][0])
+            return None if v is None else (not v)
+        if c.get("k") == "BinaryOperator" and c.get("op") in ("&&", "||"):
+            a, b = self.decide(c["c"][0]), self.decide(c["c"][1])
+            if c["op"] == "&&":
+                if a is False or b is False:
+                    return False
+                return True if (a is True and b is True) else None
+            if a is True or b is True:
+                return True
+            return False if (a is False and b is False) else None
+        if c.get("k") == "DeclRefExpr":      # a named bool
+            nl = norm.naming_locals(self.P, self.F)
+            if c.get("r") in nl.vals:
+                return self.decide(nl.vals[c["r"]])
+        return None
+
     def hook(self, n):
         if self.user_hook is not None:
             h = self.user_hook(n)
             if h is not None:
                 return h
+        if n.get("k") == "ConditionalOperator":
+            v = self.decide(n["c"][0])
+            if v is not None:
+                return self.sym(n["c"][1] if v else n["c"][2])
         s = astq.subscript(n)
         if s:
             tk = self.target_key(s[0])
@@ -61,7 +93,7 @@ class Block:
         if k == "CompoundStmt":
             self.run(s["c"])
         elif k == "IfStmt":
-            c = self.choose(s["c"][0])
+            c = self.decide(s["c"][0])
             if c is True:
                 self.stmt(s["c"][1])
             elif c is False:
@@ -197,15 +229,19 @@ def cross_section(P, rep, rule="EXPR.crosssection"):
         rep.violation(rule, "cross-section direction", W.nloc(blk), W.qn, str(got), "expected (cs1 - cs0)/|cs1 - cs0|", key=rule + "|direction",
                       witness="cross section not through the origin; compare 2D and 3D answers at x > 0")
     # dim = 2 iff the cross section entry exists
-    c = sc(blk["c"][0])
+    c = astq.resolve_alias(P, W, blk["c"][0])
     okc = False
+    from .asserts import string_lit
     if c.get("k") == "DeclRefExpr":
         for n in W.walk():
             if n.get("k") == "VarDecl" and n.get("r") == c["r"] and n.get("c"):
                 mc = astq.member_call(P, n["c"][0], "check_entry")
-                from .asserts import string_lit
                 if mc and string_lit(W, mc[2][0]) == "cross section":
                     okc = True
+    else:
+        mc = astq.member_call(P, c, "check_entry")       # the test written directly in the condition
+        if mc and string_lit(W, mc[2][0]) == "cross section":
+            okc = True
     els = blk["c"][2]
     dim3 = els is not None and any(x.get("k") == "BinaryOperator" and x.get("op") == "=" and astq.is_this_field(P, x["c"][0], "dim") and sc(x["c"][1]).get("v") == 3
                                   for x in W.walk(els))
@@ -232,13 +268,13 @@ def cross_section(P, rep, rule="EXPR.crosssection"):
                 if n.get("k") == "ConditionalOperator":
                     t = norm.render(P, n["c"][0]).replace(" ", "")
                     if t == "(coordinate_system==spherical)":
-                        return norm.Sym(P, W, inline_locals=False, hook=hk)(n["c"][1] if spherical else n["c"][2])
+                        return norm.Sym(P, W, inline_locals=False, hook=hk, inline_consts=True)(n["c"][1] if spherical else n["c"][2])
                 if n.get("k") == "DeclRefExpr" and P.d(n["r"]).get("qn") == "WorldBuilder::Consts::PI":
                     return sp.pi
                 if n.get("k") == "DeclRefExpr" and n["r"] == lv:
                     return IT
                 return None
-            val = norm.Sym(P, W, inline_locals=False, hook=hk)(conv)
+            val = norm.Sym(P, W, inline_locals=False, hook=hk, inline_consts=True)(conv)
             want_v = IT * sp.pi / 180 if spherical else IT
             if not eq(val, want_v):
                 okconv = False
@@ -371,6 +407,9 @@ def cross_section(P, rep, rule="EXPR.crosssection"):
                           "the 3D evaluator does not receive natural_to_cartesian_coordinates(mapped point)", key=rule + "|handover")
             continue
         got3 = [B2.state.get(("elem", vec, i)) for i in range(3)]
+        if all(g_ is None for g_ in got3):
+            rep.unknown(rule, "2D properties: the mapped 3D point is not built by element stores in the wrapper itself (moved into a helper?)")
+            continue
         if spherical:
             ang = sp.atan2(z, x)
             want3 = [sp.sqrt(x * x + z * z), c0x + ang * ux, c0y + ang * uy]
